@@ -58,7 +58,8 @@ def manifest() -> dict:
             {'name': 'sa', 'path': '/verif/sa', 'serves_properties': [c['property_id'] for c in checks],
              'kind_free_text': 'repository-specific static analysis: ast program model, constant folding + regex '
                                'inventory, automata over regex source (EDA/inclusion/equivalence), per-function '
-                               'CFG path rules, call graph, mypy-as-library type facts'},
+                               'CFG path rules, call graph, mypy-as-library type facts, a partial evaluator for the package source (decision '
+                               'tables over finite abstract inputs; bounded tables over concrete selector texts and abstract bs4 trees)'},
         ],
         'checks': checks,
         'not_applicable': na,
